@@ -5,9 +5,9 @@ from . import framework as fw
 from .framework import parse_rat
 
 PID = "C05"
-THEOREMS = ["OQuPyVerif.Props.C05.covariance", "OQuPyVerif.Props.C05.rot_mul"]
-_LATER = [
-            "OQuPyVerif.Props.C05.diag_choice_indep", "OQuPyVerif.PathSum.pathState_gauge"]
+THEOREMS = ["OQuPyVerif.Props.C05.covariance", "OQuPyVerif.Props.C05.rot_mul",
+            "OQuPyVerif.Props.C05.tempoState_eigen_form", "OQuPyVerif.Props.C05.diag_choice_indep",
+            "OQuPyVerif.PathSum.pathState_gauge_table", "OQuPyVerif.PathSum.pathState_gauge_single"]
 RES_TOL = 1e-18          # squared moduli
 
 
